@@ -16,7 +16,7 @@ CHECKS = {
          "Trusted: refnum. NaN and signed zero under eqv?/max/min are not judged.",
          "DESIGN.md §5 C10"),
  "C16": ("random value trees built in Rust -> Display -> (quote TEXT) -> structural comparison; shape clauses; injectivity on pairs; bulk sweep of binary32 (thorough: every finite value)",
-         "Exploration: 50k (thorough 300k) value trees, 600 (thorough 5000) batches displayed through the built binary, round-tripped through the real printer and reader and compared in value and exactness, composition of the text checked against the shape rules; every 2048th finite binary32 in quick, all 4.28e9 finite binary32 values in thorough (exhaustive for the real clause).",
+         "Exploration: 50k (thorough 300k) value trees, 600 (thorough 5000) batches displayed through the built binary, round-tripped through the real printer and reader and compared in value and exactness, 20k (thorough 200k) numbers computed by the interpreter (printed text = text of the value read back, equal? to it), long flat structures of 200-700 elements, composition of the text checked against the shape rules; every 2048th finite binary32 in quick, all 4.28e9 finite binary32 values in thorough (exhaustive for the real clause).",
          "Trusted: the SVal snapshot and its equivalence (numbers by value+exactness). Strings, non-finite reals and symbols needing bars are outside the property.",
          "DESIGN.md §5 C16"),
  "C01": ("type-directed random program generation (proptest choice sequences) against a reference evaluator (value + tick trace per form, 4 operand orders) + metamorphic equivalent spellings",
@@ -24,7 +24,7 @@ CHECKS = {
          "Trusted: refeval.rs (reference evaluator with unit tests from R7RS examples), the generator's typing discipline. Programs whose integers leave i32 are outside the class (counted).",
          "DESIGN.md §5 C01"),
  "C02": ("generated loop programs (loop shape x composition of tail contexts x N) with a host probe sampling the real machine stack address and the thread's live heap at every iteration; closed-form result oracle",
-         "Exploration with physical measurement: every shape x every single context, every depth-2 composition (quick: self shape; thorough: all 16 shapes), sampled depth-3, over 19 tail contexts; stack growth between the first eighth and the second half must stay below 2 KiB and live heap growth below 1 byte/iteration for N=4000 (thorough 40000).",
+         "Exploration with physical measurement: every shape x every single context, every depth-2 composition (quick: self shape; thorough: all 21 shapes), sampled depth-3, over 23 tail contexts (incl. tests that are variables or non-boolean true values; loops without operands); stack growth between the first eighth and the second half must stay below 2 KiB and live heap growth below 1 byte/iteration for N=4000 (thorough 40000).",
          "Trusted: the probe (address of a local in a native procedure, counting global allocator per thread). Measured on this build only. Known finding (recorded in known_findings.json): a body with an internal procedure definition leaks its frame (heap only; the stack bound is still checked for that shape).",
          "DESIGN.md §5 C02"),
  "C03": ("stateful operation histories (proptest choice sequences interpreted as a state machine) against the store model of the reference evaluator + identity-partition check on Rc addresses",
@@ -32,11 +32,11 @@ CHECKS = {
          "Trusted: refeval.rs store model. A vector is stored into itself only in one scripted operation whose reads return acyclic values.",
          "DESIGN.md §5 C03"),
  "C04": ("exhaustive small rule sets x small uses + random rule sets with uses derived from their own patterns and mutated; oracle: reference syntax-rules matcher/instantiator",
-         "Exploration, exhaustive for one-rule sets over a 6-element pattern alphabet (517 patterns x 497 uses incl. dotted ones and literal look-alikes), sampled two-rule sets, random larger rule sets; the value of a use must be the reference instantiation of the first matching rule, a use matching no rule must be a MacroMissMatch error.",
+         "Exploration, exhaustive for one-rule sets over a 6-element pattern alphabet (517 patterns x 497 uses incl. dotted ones and literal look-alikes), sampled two-rule sets, random larger rule sets, histories of up to 399 rejected nested uses on one thread followed by matching uses; the value of a use must be the reference instantiation of the first matching rule, a use matching no rule must be a MacroMissMatch error.",
          "Trusted: refmacro.rs (appendix C of DESIGN.md, own unit tests). Class as fixed by the property: final ellipsis, depth 1, >= 1 item per ellipsis.",
          "DESIGN.md §5 C04"),
  "C05": ("exhaustive nesting family (every derived form in every sub-form position of every derived form) + random type-directed programs with ticking sub-forms against the reference evaluator's direct R7RS semantics",
-         "Exploration: 576 exhaustive nestings, exhaustive cond/case clause shapes, 50 special shapes (tail binding forms, keyword symbols as data and as variable names, eqv-selection of case, errors in non-final body forms, curried-call bodies) plus thousands of random programs; value and order/multiplicity of evaluation (tick trace) per form.",
+         "Exploration: 576 exhaustive nestings, exhaustive cond/case clause shapes, 50 special shapes (tail binding forms, keyword symbols as data and as variable names, eqv-selection of case, errors in non-final body forms, curried-call bodies), 60 scope / large-form programs (let* scopes, set! under shadowing, flat forms of 257-702 sub-forms) plus thousands of random programs; value and order/multiplicity of evaluation (tick trace) per form.",
          "Trusted: refeval.rs. Known finding: unhygienic templates capture user variables x/temp/atom-key (attributed by a renaming experiment, avoided by construction in 7/8 of the random cases).",
          "DESIGN.md §5 C05"),
  "C08": ("fault injection: 8 fault kinds x 6 calling contexts (incl. deferred) x random embeddings, plus the same kinds inside procedures of generated user libraries into valid random programs, compared form by form with the reference evaluator (error kind, trace up to the fault, later forms)",
@@ -48,15 +48,15 @@ CHECKS = {
          "Trusted: refeval.rs list primitives (R7RS / minischeme definitions). memq is exercised on atoms only; map/for-each with several lists over integer lists.",
          "DESIGN.md §5 C11"),
  "C12": ("exhaustive enumeration of import-set terms (depth <= 2, thorough 3) over a native 4-export library, 2- and 3-set declarations, histories of several declarations; oracle: import-set algebra model; three runs in fresh threads with the identifier lists written in three orders",
-         "Exploration, exhaustive up to depth 2 (strided sample in quick when large): every admissible only/except subset, renaming (swaps, chains, prefix-like targets) and prefix; the root frame after the import must hold exactly the model's names and values, identically on three fresh interpreters.",
+         "Exploration, exhaustive up to depth 2 (strided sample in quick when large): every admissible only/except subset, renaming (swaps, chains, prefix-like targets) and prefix (incl. identity renaming pairs), the bare library next to every depth-2 term over it; the root frame after the import must hold exactly the model's names and values, identically on three fresh interpreters.",
          "Trusted: the 20-line algebra model; the bare interpreter's root frame is empty before the import.",
          "DESIGN.md §5 C12"),
  "C13": ("random library/program pairs (registered sources and .sld files) against a reference module system (one instance per library, library environment = imports + own definitions); attribution experiment for per-import instantiation",
-         "Exploration: 10000 (thorough 40000) generated library sets with renamed exports, unexported helpers, internal state, cross-library use, and importing programs that collide with, redefine and probe library names and observe state through several import paths.",
+         "Exploration: 10000 (thorough 40000) generated library sets with renamed exports, unexported helpers, internal state, expression statements in library bodies, cross-library use, and importing programs that collide with, redefine and probe library names and observe state through several import paths.",
          "Trusted: refeval.rs module model. Exported variables are constants or procedures (mutation of exported bindings is outside the property).",
          "DESIGN.md §5 C13"),
  "C14": ("exhaustive small-scope enumeration of dependency graphs x node statuses x import histories, libraries as files and as registered sources; oracle: graph reachability/cycle model + self-differential against a fresh interpreter; step/depth budget of hook H1 for termination",
-         "Exploration, exhaustive on 1-2 libraries (3 sampled in thorough): every graph, every status assignment, every history of <= 3 attempts; each attempt's outcome class must be admitted by the graph, equal the outcome on a fresh interpreter and terminate; libraries must be found relative to the program directory.",
+         "Exploration, exhaustive on 1-2 libraries (3 sampled in thorough): every graph, every status assignment, every history of <= 3 attempts (11 file statuses incl. a directory in place of the file; import declarations after a first body part); a library file that appears after an attempt that did not find it; each attempt's outcome class must be admitted by the graph, equal the outcome on a fresh interpreter and terminate; libraries must be found relative to the program directory.",
          "Trusted: the reachability model; temp directories under the system temp dir are created and removed by the run.",
          "DESIGN.md §5 C14"),
  "C15": ("the C08 fault programs rendered with random multi-line layouts whose token/form extents are recorded by the renderer; oracle: reported location inside the failing form / offending token; stray and missing parentheses for syntax locations",
@@ -76,7 +76,7 @@ CHECKS = {
          "Trusted: nothing beyond the driver (the oracle is the interpreter itself run alone).",
          "DESIGN.md §5 C19"),
  "C18": ("exhaustive strings over a 10-character alphabet against a reference completeness predicate (hook H2); REPL sessions over a pipe with random line splittings (metamorphic) against in-process evaluation",
-         "Exploration, exhaustive for the completeness predicate: every string up to length 7 (thorough 9: 1.1e9 strings) over ( ) \" ; LF # \\ | a SPACE; sessions through the built binary compare transcripts across line splittings and with in-process evaluation.",
+         "Exploration, exhaustive for the completeness predicate: every string up to length 7 (thorough 9: 1.1e9 strings) over ( ) \" ; LF # \\ | a SPACE; sessions through the built binary compare transcripts (lines and bytes) across line splittings and with in-process evaluation; 16 one-line forms with unusual token spellings must be evaluated when entered whenever the interpreter itself accepts them.",
          "Trusted: reflex::completeness (token-aware open-list depth); strings whose depth goes negative are not judged.",
          "DESIGN.md §5 C18"),
  "C07": ("exhaustive short strings + grammar-guided token soup + token mutation of real programs (proptest choice sequences, shrinking) + file faults; oracle: no panic by call site, interpreter still evaluates (quote ok)",
